@@ -21,7 +21,10 @@ type extDef struct {
 }
 
 // extension encodes Extension ::= SEQUENCE { extnID, critical DEFAULT FALSE, extnValue }.
-func extension(oid []int, critical bool, value []byte) []byte {
+func extension(oid []int, critical bool, value []byte) []byte { return Extension(oid, critical, value) }
+
+// Extension encodes one X.509 Extension (critical is only emitted when true).
+func Extension(oid []int, critical bool, value []byte) []byte {
 	if critical {
 		return Seq(OID(oid...), Bool(true), OctetString(value))
 	}
@@ -45,8 +48,8 @@ func gnRID(content []byte) []byte      { return Ctx(8, false, content) }
 
 func sctV1(version byte, extLen int, ext []byte, sigLen int, sig []byte) []byte {
 	b := []byte{version}
-	b = append(b, filler(32)...)                // log id
-	b = append(b, 0, 0, 1, 0x60, 0, 0, 0, 0)    // timestamp
+	b = append(b, filler(32)...)                 // log id
+	b = append(b, 0, 0, 1, 0x60, 0, 0, 0, 0)     // timestamp
 	b = append(b, byte(extLen>>8), byte(extLen)) // extensions length
 	b = append(b, ext...)
 	b = append(b, 4, 3) // sha256, ecdsa
